@@ -29,6 +29,7 @@ type FuncContract struct {
 	Pkg       string // package path the block belongs to ("" for trusted files: name is fully qualified)
 	Requires  []Clause
 	Ensures   []Clause
+	GhostSets []GhostSet // "ghostset g E": calling the function sets ghost g to E (evaluated in the pre-state)
 	AtReturn  []Clause // checked at every return with the function's local variables in scope; not visible to callers
 	Modifies  []Clause
 	Preserves []Clause // open-world callee: everything may change except these locations
@@ -109,13 +110,18 @@ type ChanInv struct {
 	C   Clause
 }
 
+type GhostSet struct {
+	Name string
+	C    Clause
+}
+
 type GlobalFact struct {
 	Pkg string
 	C   Clause
 }
 
 var clauseKeywords = map[string]bool{
-	"func": true, "requires": true, "ensures": true, "atreturn": true, "modifies": true, "preserves": true, "refinedby": true, "monitor": true, "protects": true, "strict": true, "track": true, "before": true, "panics": true, "maypanic": true, "nopanic": true,
+	"func": true, "requires": true, "ensures": true, "atreturn": true, "ghostset": true, "modifies": true, "preserves": true, "refinedby": true, "monitor": true, "protects": true, "strict": true, "track": true, "before": true, "panics": true, "maypanic": true, "nopanic": true,
 	"loop": true, "invariant": true, "decreases": true, "spec": true, "lemma": true, "induct": true,
 	"smt": true, "smtlate": true, "closed": true, "neversent": true, "chaninv": true, "immutableheap": true, "fieldinv": true, "inline": true, "sort": true, "global": true, "package": true, "ghost": true, "type": true, "trusted": true, "props": true, "use": true, "hdruse": true, "assert": true, "axiom": true, "pattern": true, "opaque": true,
 }
@@ -315,6 +321,19 @@ func (cs *Contracts) loadContractFile(path string, pkg string, goFile bool) erro
 			} else {
 				return fmt.Errorf("%s:%d: props outside func/lemma", path, l.no)
 			}
+		case "ghostset":
+			if curF == nil {
+				return fmt.Errorf("%s:%d: ghostset outside func", path, l.no)
+			}
+			i := strings.Index(rest, " ")
+			if i < 0 {
+				return fmt.Errorf("%s:%d: ghostset NAME EXPR", path, l.no)
+			}
+			c, err := mk(strings.TrimSpace(rest[i:]), l.no)
+			if err != nil {
+				return err
+			}
+			curF.GhostSets = append(curF.GhostSets, GhostSet{rest[:i], c})
 		case "atreturn":
 			if curF == nil {
 				return fmt.Errorf("%s:%d: atreturn outside func", path, l.no)
